@@ -1698,6 +1698,24 @@ class Dump(C10VC):
 
     def run(self, tier, seed):
         rs = super().run(tier, seed)
+        # The unconditional clause `text` is expected to be refuted (punycode): the solver has to produce a model of a
+        # quantified path condition for that, which it sometimes gives up on.  A solver "unknown" on that clause is then
+        # decided by the real code: a failing input found by the statement's oracle refutes it (never the other way round).
+        undecided = [r for r in rs if r.status == "unknown" and ".text#" in r.name]
+        if undecided:
+            w = None
+            for cand in self.native_family():
+                try:
+                    bad = native_check(cand)
+                except Exception as ex:  # noqa
+                    bad = f"crash: {ex!r}"
+                if bad:
+                    w = cand
+                    break
+            if w is not None:
+                for r in undecided:
+                    r.status, r.witness = "refuted", w
+                    r.detail = "solver undecided; refuted by a failing input found on the real code: " + str(bad)[:300]
         for r in rs:
             # an implementation that does not use an incremental encoder is outside the codec law this contract
             # assumes: without a natively failing input the honest verdict is "undecided", not "violated"
@@ -1916,12 +1934,27 @@ class Dump(C10VC):
         import ast as _ast
         from pyvc import extract as _extract
         dnode, _m = _extract.function_ast(_extract.resolve(c.target))
+        def register_encode_loop(qualname, fnode):
+            if not any(isinstance(x, _ast.For) for x in _ast.walk(fnode)):
+                return
+            stores = {x.id for lp in _ast.walk(fnode) if isinstance(lp, (_ast.For, _ast.While))
+                      for x in _ast.walk(lp) if isinstance(x, _ast.Name) and isinstance(x.ctx, _ast.Store)}
+            I.loops[(qualname, 0)] = LoopSpec(gen_inv, havoc={nm: "obj" for nm in sorted(stores)}, heap=gen_heap, name="encode_loop")
+
+        # the loop over the stream that feeds the encoder lives in a generator: a closure nested in dump ...
         for sub in _ast.walk(dnode):
             if isinstance(sub, _ast.FunctionDef) and sub is not dnode:
-                stores = {x.id for lp in _ast.walk(sub) if isinstance(lp, (_ast.For, _ast.While))
-                          for x in _ast.walk(lp) if isinstance(x, _ast.Name) and isinstance(x.ctx, _ast.Store)}
-                I.loops[(f"TemplateStream.dump.<locals>.{sub.name}", 0)] = LoopSpec(
-                    gen_inv, havoc={nm: "obj" for nm in sorted(stores)}, heap=gen_heap, name="encode_loop")
+                register_encode_loop(f"TemplateStream.dump.<locals>.{sub.name}", sub)
+        # ... or a private generator method of the stream that dump calls (the engine inlines private helpers)
+        import types as _types
+        for nm, fn in vars(E.TemplateStream).items():
+            if isinstance(fn, _types.FunctionType) and nm.startswith("_") and not nm.startswith("__") and nm != "_buffered_generator":
+                try:
+                    fnode, _m2 = _extract.function_ast(fn)
+                except LookupError:
+                    continue
+                if any(isinstance(x, (_ast.Yield, _ast.YieldFrom)) for x in _ast.walk(fnode)):
+                    register_encode_loop(f"TemplateStream.{nm}", fnode)
 
         def inv(ctx):
             st = ctx.st
